@@ -49,9 +49,18 @@ def enc_rat(x):
     raise MachineryError(f"weight {q} does not fit the model's rationals or fixed-point range")
 
 
+class WrongSemiring(TypeError):
+    """A weight that is not a value of the semiring of the object it sits in (an observation, not a machinery failure)."""
+
+
 def enc_w(R, w):
     """Encode weight w of semiring R in the model encoding of Semirings.tla."""
     name = sr_name(R)
+    if R is Float:
+        if not isinstance(w, (int, float, Fraction)) and not hasattr(w, "dtype"):
+            raise WrongSemiring(f"{w!r} ({type(w).__name__}) is not a number of the Float semiring")
+    elif not isinstance(w, R):
+        raise WrongSemiring(f"{w!r} ({type(w).__name__}) is not a value of {R.__name__}")
     if name == "Bool":
         return int(bool(w.score))
     if name in ("Sat2", "Sat3"):
